@@ -50,6 +50,7 @@ func (w *ResponseWriter) WriteHeader(code int) {
 // Flush implements the standard http.Flusher interface.
 func (w *ResponseWriter) Flush() {
 	if flusher, ok := w.Origin.(http.Flusher); ok {
+		w.commit()
 		flusher.Flush()
 	}
 }
@@ -57,11 +58,20 @@ func (w *ResponseWriter) Flush() {
 // FlushError attempts to invoke FlushError() of the standard http.ResponseWriter.
 func (w *ResponseWriter) FlushError() error {
 	if flusher, ok := w.Origin.(interface{ FlushError() error }); ok {
+		w.commit()
 		return flusher.FlushError()
 	} else if flusher, ok := w.Origin.(http.Flusher); ok {
+		w.commit()
 		flusher.Flush()
 	}
 	return nil
+}
+
+// commit records the implicit 200 that flushing sends when no status has been written yet.
+func (w *ResponseWriter) commit() {
+	if w.Status == 0 {
+		w.WriteHeader(http.StatusOK)
+	}
 }
 
 // Store consists of responseWriter, request, routeParams and routeInfo.
